@@ -98,6 +98,11 @@ impl Scales {
 enum Lhs {
     /// integers in [-127,127] times `s` (power of two) with +-127 in every block: exactly int8-quantisable
     ExactInts(f32),
+    /// like ExactInts(1.0), but K-block j of row r is entirely zero when j + r is odd
+    /// (masked / padded / post-ReLU activations); exactly int8-quantisable
+    ZeroBlocks,
+    /// every element zero
+    Zeros,
     /// ordinary floats
     Floats,
 }
@@ -114,11 +119,24 @@ impl Lhs {
                 };
                 v as f32 * s
             }
+            Lhs::ZeroBlocks => {
+                if (k / block_size + row) % 2 == 1 {
+                    0.0
+                } else {
+                    Lhs::ExactInts(1.0).at(b, row, k, block_size)
+                }
+            }
+            Lhs::Zeros => 0.0,
             Lhs::Floats => (((k * 37 + row * 11 + b * 5) % 201) as f32 - 100.0) * 0.0137 + 0.001 * k as f32,
         }
     }
+    fn is_exact(self) -> bool {
+        !matches!(self, Lhs::Floats)
+    }
     fn json(self) -> Json {
         match self {
+            Lhs::ZeroBlocks => json!("exact ints with all-zero K-blocks"),
+            Lhs::Zeros => json!("zeros"),
             Lhs::ExactInts(s) => json!({"exact_ints_times": s}),
             Lhs::Floats => json!("floats"),
         }
@@ -126,7 +144,11 @@ impl Lhs {
     fn from_json(j: &Json) -> Lhs {
         match j.get("exact_ints_times") {
             Some(s) => Lhs::ExactInts(s.as_f64().unwrap_or(1.0) as f32),
-            None => Lhs::Floats,
+            None => match j.as_str() {
+                Some("exact ints with all-zero K-blocks") => Lhs::ZeroBlocks,
+                Some("zeros") => Lhs::Zeros,
+                _ => Lhs::Floats,
+            },
         }
     }
 }
@@ -248,7 +270,7 @@ fn judge(c: &Case, out: &[f32], exp: &[f64], mag: &[f64]) -> Verdict {
     if out.len() != exp.len() {
         return Verdict::Mismatch(usize::MAX, out.len() as f32, exp.len() as f64);
     }
-    let exact_inputs = matches!(c.lhs, Lhs::ExactInts(_));
+    let exact_inputs = c.lhs.is_exact();
     let mut worst = 0f64;
     for i in 0..out.len() {
         if exact_inputs {
@@ -316,7 +338,7 @@ fn account(ctx: &Ctx, c: &Case, v: Verdict, t: &mut Tally, error_ok: bool) {
             t.worst_rel = t.worst_rel.max(w);
         }
         Verdict::Mismatch(i, got, exp) => {
-            let what = if got.is_nan() { "output element is NaN (not written)" } else if matches!(c.lhs, Lhs::ExactInts(_)) { "differs from dequantize-then-multiply on exactly representable operands" } else { "differs from dequantize-then-multiply by more than 1e-5 relative" };
+            let what = if got.is_nan() { "output element is NaN (not written)" } else if c.lhs.is_exact() { "differs from dequantize-then-multiply on exactly representable operands" } else { "differs from dequantize-then-multiply by more than 1e-5 relative" };
             let (bm, col) = if i == usize::MAX { (0, 0) } else { (i / c.n, i % c.n) };
             ctx.violation(c.signature(what), c.json(), format!("out[row {bm}, col {col}] = {got:e}, reference {exp:e}; case {}", c.json()));
         }
@@ -515,7 +537,7 @@ pub fn run(ctx: Ctx) -> ! {
     let batches: Vec<usize> = vec![1, 2, 3];
     let codes = code_fills(thorough);
     let scales = [Scales::Uniform(1.0), Scales::Uniform(0.5), Scales::Uniform(-2.0), Scales::Ramp];
-    let lhss = [Lhs::ExactInts(1.0), Lhs::ExactInts(0.5), Lhs::Floats];
+    let lhss = [Lhs::ExactInts(1.0), Lhs::ExactInts(0.5), Lhs::ZeroBlocks, Lhs::Zeros, Lhs::Floats];
 
     // shape axis flattened for sharding
     let mut shapes: Vec<(usize, usize, usize, usize, usize)> = Vec::new();
@@ -590,7 +612,7 @@ pub fn run(ctx: Ctx) -> ! {
             for &cd in &codes {
                 // a thinner slice of the value axes: the packing path does not depend on the activation values
                 for &sc in &[Scales::Uniform(-2.0), Scales::Ramp] {
-                    for &lhs in &[Lhs::ExactInts(1.0), Lhs::Floats] {
+                    for &lhs in &[Lhs::ExactInts(1.0), Lhs::ZeroBlocks, Lhs::Floats] {
                         let c = Case { subject: format!("GemmExecutor:{kname}"), mode: "Float", isa: String::new(), block_size: bs, k_blocks: kb, n, m, batch: b, codes: cd, scales: sc, lhs };
                         let d = build(&c);
                         let v = run_gemm_exec(&c, &d, exec);
@@ -631,7 +653,7 @@ pub fn run(ctx: Ctx) -> ! {
             .flat_map(|&(bs, kb, n, m, b)| {
                 let mut v = Vec::new();
                 for cd in op_codes {
-                    for (sc, lhs) in [(Scales::Ramp, Lhs::ExactInts(1.0)), (Scales::Uniform(0.5), Lhs::Floats), (Scales::Uniform(-2.0), Lhs::ExactInts(0.5))] {
+                    for (sc, lhs) in [(Scales::Ramp, Lhs::ExactInts(1.0)), (Scales::Uniform(0.5), Lhs::Floats), (Scales::Uniform(-2.0), Lhs::ExactInts(0.5)), (Scales::Uniform(0.5), Lhs::ZeroBlocks), (Scales::Ramp, Lhs::Zeros)] {
                         for accuracy_level in [0i64, 4] {
                             if accuracy_level == 4 && lhs == Lhs::Floats {
                                 continue;
@@ -688,7 +710,7 @@ pub fn run(ctx: Ctx) -> ! {
         "exhaustive": true,
         "axes": {
             "block_sizes": block_sizes, "k_blocks": k_blocks, "n": ns, "m": ms, "batch": batches,
-            "code_fills": codes.len(), "scales": ["1", "0.5", "-2", "ramp 2^((col+block)%4-2)"], "lhs": ["exact ints x1", "exact ints x0.5", "floats"],
+            "code_fills": codes.len(), "scales": ["1", "0.5", "-2", "ramp 2^((col+block)%4-2)"], "lhs": ["exact ints x1", "exact ints x0.5", "exact ints with all-zero K-blocks", "zeros", "floats"],
             "isas_float_mode": isas.iter().map(|i| i.name).collect::<Vec<_>>(),
             "f32_kernels": kernel_names,
         },
